@@ -65,7 +65,7 @@ type w1Config struct {
 	partitions    bool
 	repCrashes    bool
 	agentCrashes  bool
-	faultsStop    int // second of the run at which faults stop
+	faultsStop    int  // second of the run at which faults stop
 	spareScenario bool // the only fault is one replica being down for a while
 	spareReplica  int
 }
@@ -232,7 +232,9 @@ func w1Exec(t *testing.T, r *verifsim.Run) {
 	}
 }
 
-func w1Pick(c *verifsim.Choices, label string, vals ...int) int { return vals[c.Intn(len(vals), label)] }
+func w1Pick(c *verifsim.Choices, label string, vals ...int) int {
+	return vals[c.Intn(len(vals), label)]
+}
 
 func w1Run(t *testing.T, r *verifsim.Run) {
 	c := r.C
